@@ -204,22 +204,25 @@ Proof.
 Qed.
 
 (** * The theorem *)
-Theorem restart_reloads ih ivs s s' :
-  1 <= ih -> vwf ivs -> reachable_g ih ivs s -> xstep s XRestart = Ok (s', 0) ->
+Definition reloaded (s s' : kstate) : Prop :=
   (st_rounds s' = st_rounds s /\ st_replayed s' = st_replayed s /\
    forall h x, In (h, x) (st_hdrs s) -> In (h, x) (st_hdrs s')) /\
   (st_nhr s' = st_nhr s ->
      (votes_held_again (k_vot s) (k_vot s') /\ phs_held_again (st_replayed s) (k_vot s) (k_vot s')) /\
      (votes_held_again (k_nxt s) (k_nxt s') /\ phs_held_again (st_replayed s) (k_nxt s) (k_nxt s'))).
+
+Lemma restart_reloads_gen ih ivs s vals log s' :
+  1 <= ih -> vwf ivs -> K ih ivs s ->
+  restart ih ivs (stores_of s) vals log = Ok s' -> reloaded s s'.
 Proof.
-  intros Hih Hivs Hr Hx. destruct (reachable_g_K ih ivs s Hih Hivs Hr) as [HK HT].
+  intros Hih Hivs HK Hx.
   pose proof HK as ((Hc&_)&_&(_&_&_&(_&(Yv&Yn))&HSI)).
   pose proof Hc as (Hi1&Hi2&_&Hnh&Hnr&_).
-  destruct (no_regression ih ivs s XRestart s' 0 Hih Hivs Hr I Hx) as (Hhd&_).
-  cbn [xstep] in Hx. rewrite Hi1, Hi2 in Hx.
-  destruct (restart_on_SI ih ivs (stores_of s) (st_vals s) (st_log s) Hih Hivs HSI)
+  destruct (restart_from ih ivs (stores_of s) vals log Hih Hivs HSI) as (s2&E2&_&_&(Hhd&_)).
+  rewrite Hx in E2. inversion E2; subst s2. clear E2.
+  destruct (restart_on_SI ih ivs (stores_of s) vals log Hih Hivs HSI)
     as (s0&s1&Er&Ec&Es&_&_&I0&_&_&_&_&_&L0&_&_&_).
-  rewrite Er in Hx. cbn [bind] in Hx. inversion Hx; subst s'. clear Hx.
+  rewrite Er in Hx. inversion Hx; subst s'. clear Hx.
   destruct (recheck_rounds _ _ Ec) as [R1 R2].
   assert (Ers : st_rounds s0 = st_rounds s) by (apply (f_equal sr_rounds) in Es; exact Es).
   assert (Erp : st_replayed s0 = st_replayed s) by (apply (f_equal sr_replayed) in Es; exact Es).
@@ -239,4 +242,39 @@ Proof.
   split.
   - apply (reload_view (st_rounds s) (st_replayed s)); try assumption. rewrite Ev0, Evm, Ehd, Eh. reflexivity.
   - apply (reload_view (st_rounds s) (st_replayed s)); try assumption; try congruence; try (rewrite En0, Enm, Ehd, Eh; reflexivity).
+Qed.
+
+(** after a clean restart *)
+Theorem restart_reloads ih ivs s s' :
+  1 <= ih -> vwf ivs -> reachable_g ih ivs s -> xstep s XRestart = Ok (s', 0) -> reloaded s s'.
+Proof.
+  intros Hih Hivs Hr Hx. destruct (reachable_g_K ih ivs s Hih Hivs Hr) as [HK _].
+  pose proof HK as ((Hc&_)&_). destruct Hc as (Hi1&Hi2&_).
+  cbn [xstep] in Hx. rewrite Hi1, Hi2 in Hx.
+  destruct (restart ih ivs (stores_of s) (st_vals s) (st_log s)) as [s2|] eqn:E; cbn [bind] in Hx; [|discriminate].
+  inversion Hx; subst s2. eapply restart_reloads_gen; eassumption.
+Qed.
+
+(** after a crash that let every write of the operation land: relative to the state the
+    uninterrupted operation produces *)
+Theorem crash_after_all_writes_reloads ih ivs s o s1 r k s' :
+  1 <= ih -> vwf ivs -> reachable_g ih ivs s -> step s o = Ok (s1, r) -> wf_op o r ->
+  (List.length (st_log s1) - List.length (st_log s) <= k)%nat ->
+  xstep s (XCrash k o) = Ok (s', r) -> reloaded s1 s'.
+Proof.
+  intros Hih Hivs Hr Hs Hw Hk Hx.
+  assert (Hr1 : reachable_g ih ivs s1) by (eapply (rg_step ih ivs s (XOp o)); [exact Hr|exact Hw|exact Hs]).
+  destruct (reachable_g_K ih ivs s1 Hih Hivs Hr1) as [HK1 _].
+  destruct (reachable_g_K ih ivs s Hih Hivs Hr) as [((Hc&_)&_) _]. destruct Hc as (Hi1&Hi2&_).
+  rewrite (crash_after_all_writes_is_clean_restart s o s1 r k Hs Hk) in Hx. rewrite Hi1, Hi2 in Hx.
+  destruct (restart ih ivs (stores_of s1) (st_vals s) (st_log s1)) as [s2|] eqn:E; cbn [bind] in Hx; [|discriminate].
+  inversion Hx; subst s2. eapply restart_reloads_gen; eassumption.
+Qed.
+
+(** the view / round-store correspondence is an invariant of every reachable state
+    (operations, restarts, crashes at every point) *)
+Theorem reachable_correspondence ih ivs s :
+  1 <= ih -> vwf ivs -> reachable_g ih ivs s -> Y s.
+Proof.
+  intros Hih Hivs Hr. destruct (reachable_g_K ih ivs s Hih Hivs Hr) as [(_&_&(_&_&_&(_&HY)&_)) _]. exact HY.
 Qed.
